@@ -47,10 +47,10 @@ def _sched_rule(chk, prog):
                     chk.ok(rule, "%s: %s(%s) [%s] %s" % (fn.name, n.callee, key, rtype, how))
                     continue
                 ek = (fn.name, rtype, key)
-                if ek in SCHED_EXCEPTIONS and canres:
-                    # the exception only covers the branch guarded by can_resume on the deadline owner;
-                    # a second sink on the same record without either guard is still reported
-                    guarded_by_curr = any(a.k == "call" for a in ())  # placeholder, see below
+                if ek in SCHED_EXCEPTIONS and any(t.endswith("curr_fiber") for t in canres):
+                    # the exception only covers the branch guarded by can_resume on the deadline's OWNER (curr_fiber, the body
+                    # the deadline was set for) - testing the fiber to be cancelled instead says nothing about whether the
+                    # deadline is still wanted
                     chk.exception(rule, "%s %s" % (fn.name, key), SCHED_EXCEPTIONS[ek])
                     chk.ok(rule, "%s: %s(%s) deadline idiom" % (fn.name, n.callee, key))
                     continue
